@@ -1,5 +1,5 @@
 # Automatically generated, do not edit.
-# cython: cdivision=True, language_level=3
+# cython: cdivision=True, language_level=3, cpow=True
 # distutils: language=c++
 <%def name="indent(text, level=0)" buffered="True">
 % for l in text.splitlines():
